@@ -138,9 +138,12 @@ func (s *svcScenario) step() (string, string) {
 			// the server a second time); nothing about its datatypes may change through that
 			w.c.Step("%s registers again", cl.Alias)
 			if err := cl.Register(); err != nil {
-				return "re-registration-refused", fmt.Sprintf("client %s registered again with an unchanged ClientMessage and was refused: %v", cl.Alias, err)
+				// the statement says nothing about registering again; what it does say (clients
+				// converge) is judged below whatever the server answered here
+				w.c.Count("re_registrations_refused", 1)
+			} else {
+				w.c.Count("re_registrations", 1)
 			}
-			w.c.Count("re_registrations", 1)
 		}
 		if _, sig, msg := w.sync(cl); sig != "" {
 			return sig, msg
